@@ -168,6 +168,8 @@ impl CompactionWorker {
             .run()
             .await
             .map_err(|e| CompactorError::ZoneWriter(e.to_string()))?;
+        #[cfg(sneldb_verif)]
+        crate::verif::step("compact.output_written", &format!("\"shard\":{},\"out\":{},\"inputs\":{:?}", self.shard_id, batch.uid_plans[0].output_segment_id, batch.input_segment_labels));
 
         // Prepare new entries for handover
         // When multiple UIDs are compacted from the same input segments,
